@@ -178,8 +178,9 @@ class Simulation(object):
         self.reg_update_nets = tuple((self.block.logic_subset('r')))
         self.mem_update_nets = tuple((self.block.logic_subset('@')))
 
-        self.tracer._set_initial_values(self.default_value, self.regvalue.copy(),
-                                        copy.deepcopy(self.memvalue))
+        if self.tracer is not None:
+            self.tracer._set_initial_values(self.default_value, self.regvalue.copy(),
+                                            copy.deepcopy(self.memvalue))
 
     def step(self, provided_inputs):
         """Take the simulation forward one cycle.
@@ -584,10 +585,11 @@ class FastSimulation(object):
 
         # Record initial values keyed the same way Simulation does
         # (Register -> value, memid -> {addr: value}), as output_verilog_testbench expects.
-        self.tracer._set_initial_values(
-            self.default_value,
-            {r: self.regs[r.name] for r in reg_set},
-            {mem.id: copy.deepcopy(mem_map) for mem, mem_map in memory_value_map.items()})
+        if self.tracer is not None:
+            self.tracer._set_initial_values(
+                self.default_value,
+                {r: self.regs[r.name] for r in reg_set},
+                {mem.id: copy.deepcopy(mem_map) for mem, mem_map in memory_value_map.items()})
 
         context = {}
         logic_creator = compile(s, '<string>', 'exec')
